@@ -2,7 +2,8 @@
 """Files the sub-agents' seeded changes under /verif/seeded/<ID>-<mN>/ with my own confirmation results
 (phase A logs in /tmp/seed) and the outcome of the checks (phase B text files given on the command line)."""
 import json, os, re, shutil, sys, glob
-SEED = "/tmp/seed"
+SEED = os.environ.get("SEEDROOT", "/tmp/seed")
+PREFIX = os.environ.get("SEEDPREFIX", "")
 OUT = "/verif/seeded"
 def judged(id_, m):
     def has(p, rx):
@@ -44,7 +45,7 @@ for i in range(1, 21):
     for m in ("m1", "m2"):
         src = "%s/%s/seeded/%s" % (SEED, id_, m)
         if not os.path.exists(src + "/patch.diff"): continue
-        dst = "%s/%s-%s" % (OUT, id_, m)
+        dst = "%s/%s-%s%s" % (OUT, id_, PREFIX, m)
         os.makedirs(dst, exist_ok=True)
         shutil.copy(src + "/patch.diff", dst + "/patch.diff")
         shutil.rmtree(dst + "/demo", ignore_errors=True)
@@ -57,8 +58,8 @@ for i in range(1, 21):
         json.dump(agent, open(dst + "/agent_meta.json", "w"), indent=1)
         meta = dict(property=id_, mutant=m, summary=agent.get("summary"), needs=agent.get("needs"), files_changed=agent.get("files_changed"),
                     demo_cmd=agent.get("demo_cmd"), confirmed=judged(id_, m),
-                    what_i_ran=["scratch worktree /tmp/seed/%s at /repo HEAD: demo on clean tree; git apply patch.diff; go build ./...; go test -vet=off -count=1 ./... (up to 3 attempts, only segment.TestConcurrentReadersAndWriter / TestFrameCodecFuzz - load/random sensitive in the pinned suite - may fail); demo with the change; git checkout" % id_,
+                    what_i_ran=["scratch worktree " + SEED + "/%s at /repo HEAD: demo on clean tree; git apply patch.diff; go build ./...; go test -vet=off -count=1 ./... (up to 3 attempts, only segment.TestConcurrentReadersAndWriter / TestFrameCodecFuzz - load/random sensitive in the pinned suite - may fail); demo with the change; git checkout" % id_,
                                 "tools/with_patch.sh patch.diff <tier> <checks> (git -C /repo apply; ./check ...; git -C /repo checkout -- .)"],
-                    checks=checks.get("%s-%s" % (id_, m), {}))
+                    checks=checks.get("%s-%s%s" % (id_, PREFIX, m), {}))
         json.dump(meta, open(dst + "/meta.json", "w"), indent=1)
 print("filed", len(glob.glob(OUT + "/*/meta.json")))
